@@ -210,7 +210,7 @@ func runC15(r *Run) {
 	r.GuardLike(hm, "ne($msg.Decode(new(protocol.getBlockHashesFromNumberData)),nil)", "a request that does not decode drops the peer")
 	r.GuardLike(hm, "ne($msg.Decode(new(*nom.DetailedMomentum)),nil)", "a block announcement that does not decode drops the peer")
 	r.GuardLike(hm, "ne($msg.Decode(new([]*nom.AccountBlock)),nil)", "a transaction message that does not decode drops the peer")
-	r.GuardLike(hm, "eq(new([]*nom.AccountBlock)[(iter+1)],nil)", "a nil transaction drops the peer")
+	r.GuardLike(hm, "eq(new([]*nom.AccountBlock)[iter],nil)", "a nil transaction drops the peer")
 
 	// (5) authenticate before use
 	rd := "p2p.(*rlpxFrameRW).ReadMsg"
